@@ -5,7 +5,8 @@
      hed/validator/spreadsheet_validator.py: SpreadsheetValidator.validate (onset part),
        _run_onset_checks
    Times are exact (N, in units of 1/8 s): the 1e-9 tolerance of
-   _indexed_dict_from_onsets, float parsing and NaN onsets are not modelled.
+   _indexed_dict_from_onsets, float parsing, NaN onsets and Delay values that have
+   no conversion to seconds (the group then stays in its row) are not modelled.
    Models only -- proofs live in Proofs/TimelineProofs.v. *)
 From Coq Require Import List NArith Arith Bool.
 From HV Require Import Base.Res Base.Str Model.Onset.
@@ -199,7 +200,8 @@ Fixpoint index_from {B} (i : nat) (l : list B) : list (nat * B) :=
 (* ---------- SpreadsheetValidator.validate, onset part ----------
    fixed: the repaired sort (fix C10-F1).  perm1 / perm2: the tie orders chosen by
    the two sort_values calls of the unrepaired code (None = order-preserving). *)
-Definition process_file (fixed : bool) (perm1 perm2 : option (list nat)) (rows : list row)
+(* [ov] = the _onsets of the OnsetValidator object that _run_onset_checks uses *)
+Definition process_file_from (fixed : bool) (perm1 perm2 : option (list nat)) (ov : state) (rows : list row)
   : res (state * list (nat * list issue)) :=
   let irows := index_from 0 rows in
   let* irows' := if needs_sorting rows
@@ -210,4 +212,31 @@ Definition process_file (fixed : bool) (perm1 perm2 : option (list nat)) (rows :
   let d := indexed_dict_from_onsets (map e_time sorted) in
   let* lines := filter_by_index_list sorted d in
   let invalid := flat_map (fun ir : nat * row => if r_invalid (snd ir) then [fst ir] else []) irows in
-  Ok (run_onset_checks invalid state0 lines).
+  Ok (run_onset_checks invalid ov lines).
+
+(* "self._onset_validator = OnsetValidator()": every validate() call makes a fresh validator *)
+Definition process_file (fixed : bool) (perm1 perm2 : option (list nat)) (rows : list row)
+  : res (state * list (nat * list issue)) :=
+  process_file_from fixed perm1 perm2 state0 rows.
+
+(* ---------- one SpreadsheetValidator object validating several files ----------
+   [sv] = self._onset_validator left behind by the previous validate() call
+   (None before the first call): its _onsets, i.e. the scopes the previous file left open. *)
+Definition sv_state := option state.
+
+Definition sv_validate (fixed : bool) (sv : sv_state) (rows : list row)
+  : sv_state * res (state * list (nat * list issue)) :=
+  let ov := state0 in                         (* self._onset_validator = OnsetValidator() *)
+  match process_file_from fixed None None ov rows with
+  | Ok (st, out) => (Some st, Ok (st, out))   (* the object keeps the validator with its final _onsets *)
+  | Exn e => (Some ov, Exn e)
+  end.
+
+Fixpoint validate_seq (fixed : bool) (sv : sv_state) (files : list (list row))
+  : list (res (state * list (nat * list issue))) :=
+  match files with
+  | [] => []
+  | rows :: rest =>
+      let '(sv', out) := sv_validate fixed sv rows in
+      out :: validate_seq fixed sv' rest
+  end.
